@@ -257,6 +257,25 @@ def _case(repo, it, S, spec):
                     if k3 != "ok" or plain(d3) != plain(d):
                         out.append(("export_parent", f"{desc}: exported-parent round trip changes the object: "
                                     f"{_diff(plain(d), plain(d3)) if k3 == 'ok' else d3}", f_from.qual))
+            # an explicitly passed parent takes precedence over the one embedded in the dictionary (documented override): the same
+            # dictionary with and without the embedded parent, imported onto another parent, gives the same collection
+            if k == "ok" and parent is not None:
+                other = chunk_parent(it, GENOME, 1, 50, alphabet="NT_EXTENDED") if parent_kind == "chrom" else chrom_parent(it, GENOME, alphabet="NT_EXTENDED")
+                n += 1
+                kp, dplain = run(it, f_to, [], {}, ac)
+                ka, a_ = run(it, f_from, [d, other], {}, None)
+                kb, b_ = run(it, f_from, [dplain, other], {}, None)
+                if ka != kb:
+                    out.append(("explicit parent overrides the embedded one", f"{desc}: from_dict(dictionary with exported parent, other parent) -> {ka}:"
+                                f"{a_ if ka != 'ok' else ''}; without the embedded parent -> {kb}", f_from.qual))
+                elif ka == "ok":
+                    da = plain(run(it, f_to, [], {"export_parent": True}, a_)[1])
+                    db = plain(run(it, f_to, [], {"export_parent": True}, b_)[1])
+                    la, lb = it.py_str(a_.fields["_location"]), it.py_str(b_.fields["_location"])
+                    if da != db or la != lb:
+                        out.append(("explicit parent overrides the embedded one", f"{desc}: importing the dictionary with its exported parent onto "
+                                    f"another parent gives location {la} / {_diff(db, da)}; the explicitly passed parent must win "
+                                    f"(location {lb})", f_from.qual))
             # pickling
             n += 1
             gs = repo.fn("gene.collections:AnnotationCollection.__getstate__")
@@ -321,7 +340,10 @@ def _guid_case(repo, it, S, spec):
             args.update(over)
             ft = mk_feature(it, args["blocks"], S[args["strand"]], feature_name="f")
             fc = mk_feature_collection(it, [ft], qualifiers=q)
-            return mk_collection(it, None, [fc], qualifiers=q, name="n"), "gene.collections:AnnotationCollection.__init__"
+            vs, ve, valt = args.get("variant", (20, 21, "T"))
+            var = it.apply(ClassTok("VariantInterval"), [vs, ve, valt, "SNV"], {"variant_name": "v"}, None, 0)
+            vc = it.apply(ClassTok("VariantIntervalCollection"), [[var]], {"variant_collection_id": "vc"}, None, 0)
+            return mk_collection(it, None, [fc], variant_collections=[vc], qualifiers=q, name="n"), "gene.collections:AnnotationCollection.__init__"
         raise ValueError(kind)
 
     try:
@@ -348,7 +370,8 @@ def _guid_case(repo, it, S, spec):
     changes = {"feature": [dict(blocks=[(3, 9), (12, 21)]), dict(blocks=[(4, 9), (12, 20)]), dict(strand="MINUS")],
                "transcript": [dict(exons=[(3, 9), (12, 21)]), dict(strand="MINUS"), dict(frames=[F["ZERO"], F["ONE"]])],
                "gene": [dict(exons=[(3, 9), (12, 21)]), dict(strand="MINUS")],
-               "collection": [dict(blocks=[(3, 10)]), dict(strand="MINUS")]}[kind]
+               "collection": [dict(blocks=[(3, 10)]), dict(strand="MINUS"), dict(variant=(21, 22, "T")), dict(variant=(20, 21, "G")),
+                              dict(variant=(20, 22, "T"))]}[kind]
     for ch in changes:
         n += 1
         try:
@@ -378,6 +401,25 @@ def rg_identifiers(ctx):
     results = pmap(_runner(ctx.repo, _guid_case), specs, min_items=2)
     _report(ctx, "C08.RG", results, [("util.hashing:digest_object", "guid invariant under insertion order, sensitive to content"),
                                      ("util.hashing:_order_dict_of_possible_sets", "dictionary keys ordered deterministically")])
+    # digits must not migrate between adjacent numeric arguments of a digest: objects that differ in coordinates differ in guid
+    r, repo = ctx.r, ctx.repo
+    it = gene_interp(repo, max_steps=10 ** 9)
+    S = strands(it)
+    pairs = [("VariantInterval", "gene.variants:VariantInterval.__init__",
+              lambda a, b: it.apply(ClassTok("VariantInterval"), [a, b, "T", "SNV"], {"variant_name": "v"}, None, 0), ((1, 213), (12, 13))),
+             ("FeatureInterval", "gene.feature:FeatureInterval.__init__",
+              lambda a, b: mk_feature(it, [(a, b)], S["PLUS"], feature_name="f"), ((1, 213), (12, 13))),
+             ("TranscriptInterval", "gene.transcript:TranscriptInterval.__init__",
+              lambda a, b: mk_transcript(it, [(a, b)], S["PLUS"], transcript_id="t"), ((1, 213), (12, 13)))]
+    for cname, q, mk, ((a1, b1), (a2, b2)) in pairs:
+        try:
+            g1, g2 = str(mk(a1, b1).fields["guid"]), str(mk(a2, b2).fields["guid"])
+        except Raised as ex:
+            r.violation("C08.RG", q, "coordinates separated in the digest", f"{cname}: construction raises {ex.exc_name}", repo.fn(q))
+            continue
+        r.check(g1 != g2, "C08.RG", q, "coordinates separated in the digest",
+                f"{cname}({a1}, {b1}, ...) and {cname}({a2}, {b2}, ...) have the same guid {g1}: start and end are digested as adjacent "
+                f"strings without a separator, so digits migrate between them", repo.fn(q))
 
 
 def r2_model_keys(ctx):
